@@ -50,6 +50,11 @@ def declare(ct):
     F("POO", rounds="int", rhomax="real", numax="real", Dmax="real", domain="list[list[real]]", partition="cls:Partition",
       algo="cls:Learner", N="int", n="int", phase="int", curr_algo="ref?:Learner", counter="int", goodx="list?[real]",
       V_algo="list[ref:Learner]", V_reward="list[real:score]", Times="list[int]", algo_counter="int", late=("algo_counter",))
+    F("GPO", rounds="int", rhomax="real", numax="real", Dmax="real", domain="list[list[real]]", partition="cls:Partition",
+      algo="cls:Learner", N="real", phase="int", curr_algo="ref?:Learner", half_phase_length="real", counter="int",
+      goodx="list?[real]", V_x="list[list[real]]", V_reward="list[real:score]")
+    F("PCT", algorithm="ref:GPO")
+    F("VPCT", algorithm="ref:GPO")
     # ---- synthetic objectives
     for c in ("Garland", "DoubleSine", "DifficultFunc", "Ackley", "Ackley_Normalized", "Himmelblau", "Himmelblau_Normalized",
               "Rastrigin", "Rastrigin_Normalized", "Cexample", "Perturbed_Garland", "Perturbed_DoubleSine"):
